@@ -54,6 +54,54 @@ class ListMap(MutableMapping):
         return len(self.pairs)
 
 
+class HostileMap(ListMap):
+    """drops everything right after its n-th operation (lookup hit/miss or store): what a bounded or expiring cache
+    shared with other threads may do between any two of the wrapper's own steps"""
+
+    def __init__(self, n):
+        super().__init__()
+        self.left = n
+
+    def _tick(self):
+        self.left -= 1
+        if self.left == 0:
+            self.pairs[:] = []
+
+    def __getitem__(self, k):
+        try:
+            return super().__getitem__(k)
+        finally:
+            self._tick()
+
+    def __setitem__(self, k, v):
+        super().__setitem__(k, v)
+        self._tick()
+
+
+def scen_evict_during(a, b, n):
+    """an eviction at any point of the wrapper's own sequence of mapping operations costs recomputation, never an exception,
+    and never hands a caller the value of other arguments"""
+    global LAST_INFO
+    devs = []
+    cache = HostileMap(n)
+    va, vb = V(a), V(b)
+    calls = [((va,), []), ((vb,), []), ((va,), []), ((vb,), [('x', va)]), ((va,), [])]
+    d, info = _run_calls(calls, cache)
+    if d:
+        return d
+    for i, r in enumerate(info['results']):
+        if r[0] != 'ok':
+            devs.append('call-raised:' + r[1])
+            continue
+        val = r[1]
+        ia, ik = info['invocations'][val[1]]
+        if not _same_sig((ia, list(ik.items())), calls[i]):
+            devs.append('received-result-of-different-arguments')
+    if not vfw.prelude.tracing():
+        LAST_INFO = {'n': n, 'results': repr(info['results'])}
+    return sorted(set(devs))
+
+
 def _run_calls(calls, cache, evictions=None, deco_form='direct'):
     """calls: list of (args tuple, kwargs list of (name, value) in insertion order).
     evictions: optional {call index: 'all' | position in the mapping} applied *before* that call.
@@ -327,6 +375,8 @@ def cells(prop, tier):
     out.append(Cell(name='kw_vs_pos', sig='v: int, w: int', pre=['True'], body='H.scen_kw_vs_pos(v, w)', tier=q, timeout=120, family='ints'))
     out.append(Cell(name='evict', sig='a: int, b: int, ev1: int, ev2: int', pre=['-1 <= ev1 <= 1 and -1 <= ev2 <= 2'],
                     body='H.scen_evict(a, b, ev1, ev2)', tier=q, timeout=170, family='evict'))
+    out.append(Cell(name='evict_during', sig='a: int, b: int, n: int', pre=['1 <= n <= 14'], body='H.scen_evict_during(a, b, n)',
+                    tier=q, timeout=170, family='evict'))
     out.append(Cell(name='twin_share', sig='pa: List[int], pb: List[int]', pre=['len(pa) == 2 and len(pb) == 2'],
                     body='H.twin_share(pa, pb)', expect='refute', timeout=90, family='ints'))
     if tier == 'thorough':
